@@ -30,6 +30,8 @@ TAGS = {
     32: 'all_combinations(): duplicate combination',
     33: 'all_combinations(): number of combinations is not prod(1+|category|)-1',
     41: 'candidate names not unique',
+    42: 'exhaustive: a candidate with several features gets its functions as an unordered set although they are zipped with the keys',
+    78: 'MFL: Transits.__eq__ does not return the truth value of equality',
     51: 'stepwise: a path is not allowed by the documented rules (feature repeated / category used twice / excluded combination)',
     52: 'stepwise: peripheral compartments not added one at a time in increasing order',
     53: 'stepwise: an allowed path is missing or a path occurs twice',
@@ -40,7 +42,11 @@ TAGS = {
     73: 'MFL: a - b does not denote the difference of the expanded feature combinations',
     74: 'MFL: a == b disagrees with equality of the expanded feature combinations',
     75: 'MFL: contain_subset disagrees with inclusion of the expanded feature combinations',
-    76: 'MFL: operation raises an internal error (TypeError/AttributeError/...)',
+    761: 'MFL: a + b raises an internal error or returns an unusable object',
+    762: 'MFL: a - b raises an internal error or returns an unusable object',
+    763: 'MFL: a == b raises an internal error', 764: 'MFL: b == a raises an internal error',
+    765: 'MFL: contain_subset raises an internal error',
+    766: 'MFL: least_number_of_transformations raises an internal error',
     77: 'MFL: least_number_of_transformations is not a smallest set of transformations into the other space',
 }
 CORR = (1, 2, 3, 4, 5, 6, 7, 8)
@@ -177,17 +183,17 @@ def observe(spec):
     """Run the implementation on a spec; returns (coq term of type case, info)."""
     kind = spec['kind']
     if kind == 'partZ':
-        from pharmpy.internals.set.partitions import partitions
+        partitions = M.impl('pharmpy.internals.set.partitions').partitions
         out = [[list(b) for b in p] for p in partitions(spec['l'])]
         return f"(CPartZ {zlist(spec['l'])} {zlist3(out)})", {'n_out': len(out), 'n': len(spec['l'])}
     if kind == 'partS':
-        from pharmpy.internals.set.partitions import partitions
+        partitions = M.impl('pharmpy.internals.set.partitions').partitions
         out = [[list(b) for b in p] for p in partitions(spec['l'])]
         lterm = '[' + ';'.join(sterm(s) for s in spec['l']) + ']%N'
         return f"(CPartS {lterm} {slist3(out)})", {'n_out': len(out), 'n': len(spec['l'])}
     if kind == 'sub':
-        from pharmpy.internals.set.subsets import (non_empty_proper_subsets, non_empty_subsets,
-                                                   subsets)
+        sm = M.impl('pharmpy.internals.set.subsets')
+        non_empty_proper_subsets, non_empty_subsets, subsets = sm.non_empty_proper_subsets, sm.non_empty_subsets, sm.subsets
         out = [list(s) for s in subsets(spec['l'], min_size=spec['min'], max_size=spec['max'])]
         # the two named wrappers are the same function at fixed arguments: make sure they really are
         if spec['min'] == 1 and spec['max'] == -1:
@@ -197,7 +203,7 @@ def observe(spec):
         return (f"(CSubZ {zlist(spec['l'])} {ct.nat(spec['min'])} ({spec['max']})%Z {zlist2(out)})",
                 {'n_out': len(out), 'n': len(spec['l'])})
     if kind == 'comb':
-        from pharmpy.tools.mfl.helpers import all_combinations
+        all_combinations = M.impl('pharmpy.tools.mfl.helpers').all_combinations
         codes = Codes()
         keys = [tuple(k) for k in spec['keys']]
         fns = {k: (lambda m: m) for k in keys}
@@ -218,7 +224,7 @@ def classify(ctx, spec, tags):
     if spec.get('dup'):
         tags -= {12, 14}
     corr = sorted(t for t in tags if t in CORR)
-    oracle = sorted(t for t in tags if 11 <= t < 200)
+    oracle = sorted(t for t in tags if 11 <= t < 200 or 700 <= t < 800)
     status = 'ok'
     for t in oracle:
         fid = M.explain(ctx, spec, t, tags)
@@ -230,6 +236,14 @@ def classify(ctx, spec, tags):
         else:
             ctx.violation(TAGS.get(t, str(t)), {'spec': spec, 'tags': sorted(tags), 'tag_meaning': TAGS.get(t, str(t))})
             status = 'violation'
+    if corr and status == 'ok' and (tags & set(M.GUARD_TAGS)):
+        # guard-false input on which the implementation satisfies the SPEC (no oracle tag) but no longer
+        # behaves like the faithful model of the defect: the known defect was repaired there
+        ctx.coverage['spec_holds_model_differs_on_guard_false'] = ctx.coverage.get('spec_holds_model_differs_on_guard_false', 0) + 1
+        if 'finding_behaviour_changed' not in ' '.join(ctx.notes):
+            ctx.notes.append('finding_behaviour_changed: implementation meets the specification on inputs where the model of a known defect does not '
+                             f'(first: {json.dumps(spec)[:200]})')
+        return 'fixed'
     if corr and status != 'violation':
         ctx.broken.append('correspondence C18 model vs implementation: ' + ', '.join(TAGS[t] for t in corr)
                           + ' on ' + json.dumps(spec)[:400])
@@ -238,13 +252,26 @@ def classify(ctx, spec, tags):
     return status
 
 
-IMPORTS = 'Base.PyData C18.Model C18.Check'
+IMPORTS = 'Base.PyData C18.Model C18.MflModel C18.MflCheck C18.Check'
 
 
 def run_specs(ctx, specs, label, shard=40):
     terms, kept, infos = [], [], []
+    timeouts = {}
     for spec in specs:
-        term, info = observe(spec)
+        if timeouts.get(spec['kind'], 0) >= 2:
+            ctx.coverage['not_run_after_timeouts'] = ctx.coverage.get('not_run_after_timeouts', 0) + 1
+            continue
+        try:
+            term, info = M.with_time_limit(20 if timeouts.get(spec['kind']) else 60, observe, spec)
+        except M.Rejected:
+            ctx.coverage['rejected_by_parser'] = ctx.coverage.get('rejected_by_parser', 0) + 1
+            continue
+        except (M.ImplTimeout, MemoryError, RecursionError):
+            timeouts[spec['kind']] = timeouts.get(spec['kind'], 0) + 1
+            ctx.violation('implementation did not finish within 60 s on an input for which the model ends after |keys|+1 passes',
+                          {'spec': spec, 'tags': [], 'tag_meaning': 'timeout'})
+            continue
         terms.append(term)
         kept.append(spec)
         infos.append(info)
@@ -275,14 +302,19 @@ def run(ctx):
     gen_ok = M.regenerate_tables(ctx)
     ctx.build_gate(['C18'], extra_vfiles=M.generated_vfiles())
     ctx.trusted += [
-        'harness/props/c18.py, c18_mfl.py: generators, export of real tuples / task lists / ModelFeatures objects to Gallina terms (strings as code points or table codes), classification',
-        'Python sorted() is a stable sort: modelled by a stable merge sort (any stable sort gives the same list)',
-        'fail-closed ast translator of the literal table not_supported_combo (c18_mfl.translate_not_supported_combo)',
+        'harness/props/c18.py, c18_mfl.py: generators, export of real tuples / workflow task lists / ModelFeatures attributes to Gallina terms (strings as code points or table codes), classification',
+        'hand-written models coq/theories/C18/Model.v (enumerators, stepwise builders) and MflModel.v (ModelFeatures algebra) validated by the in-Coq correspondence only on generated inputs',
+        'Python sorted() is a stable sort: modelled by a stable merge sort (any stable sort gives the same list); Python set iteration order is unspecified: results are compared as sets, and the zip over a set in exhaustive() is quantified over every order',
+        'fail-closed ast translators (c18_mfl.translate_not_supported_combo, translate_wildcard_tuple) of the literal table not_supported_combo and of the *_WILDCARD tuples',
+        'networkx DiGraph node order / predecessors as used by Workflow.output_tasks, get_predecessors (the harness walks the real workflow graphs)',
     ]
     ctx.assumptions += [
-        'the LALR grammar of the MFL (lark) is an engine: the printed form is re-parsed by the real parser; no reference parser is proved',
+        'the LALR grammar of the MFL (lark) is an engine: the printed form is re-parsed by the real parser; no reference parser is proved (only validate_mfl_list is modelled)',
         'model fitting / the transformation functions attached to feature keys are not executed: only the workflow graphs the algorithm builders create are compared',
-        'COVARIATE wildcards / references that need a model (expand(model)) are resolved by the real code against the pheno example model before the algebra is judged',
+        'COVARIATE wildcards and model-dependent references (@PK, @IIV, ...; ModelFeatures.expand(model)), ALLOMETRY and get_model_features are not covered; LET references are',
+        'a - b: where a category difference is empty the result may carry the category default (ModelFeatures.create completes a PK space); this convention is part of the specification used',
+        'contain_subset is judged as modelsearch uses it (tool=None: PK categories, DRUG peripherals) and only on PK spaces; least_number_of_transformations only with tool=modelsearch',
+        'the stepwise algorithms are judged on feature dictionaries as modelsearch builds them (DRUG peripherals listed in increasing order)',
     ]
     ctx.coverage['source_sha'] = source_sha(
         'src/pharmpy/internals/set/partitions.py', 'src/pharmpy/internals/set/subsets.py',
@@ -296,7 +328,7 @@ def run(ctx):
     specs += M.gen_specs(ctx.rng, ctx.tier)
     # heavy cases first (balanced shards)
     kept, verdicts, infos = run_specs(ctx, specs, 'gen')
-    stats = {'ok': 0, 'known': 0, 'violation': 0, 'broken': 0}
+    stats = {'ok': 0, 'known': 0, 'violation': 0, 'broken': 0, 'fixed': 0}
     for spec, tags in zip(kept, verdicts):
         stats[classify(ctx, spec, tags)] += 1
     ctx.coverage['evaluations'] = sum(i.get('n_out', 1) for i in infos)
@@ -325,7 +357,7 @@ def replay(ctx, rep):
     tags = verdicts[0]
     print('spec', json.dumps(spec))
     print('tags', tags, [TAGS.get(t, t) for t in tags])
-    bad = [t for t in tags if t < 200]
+    bad = [t for t in tags if t < 200 or 700 <= t < 800]
     if spec.get('dup'):
         bad = [t for t in bad if t not in (12, 14)]
     return 1 if bad else 0
